@@ -155,7 +155,7 @@ def matrix(run, prop):
     fs = [f for f in run.findings() if f.get('kind') == 'matrix']
     hits, unmatched = {}, []
     for x in res['failing']:
-        m = [f for f in fs for s in f['sites'] if x[0] == s[0] and x[1] == s[1] and x[2] in s[2] and x[3] == s[3]]
+        m = [f for f in fs for s in f['sites'] if x[0] == s[0] and x[1] == s[1] and x[2] in s[2] and x[3] == s[3] and (len(s) < 5 or x[4] == s[4])]      # the same cell failing in a different way is not the listed finding
         if m: hits[m[0]['id']] = hits.get(m[0]['id'], 0) + 1
         else: unmatched.append(x)
     run.search['slot-matrix'] = {'cells': res['cells'], 'judged': res['judged'], 'failing_cells': len(res['failing']), 'matched_to_listed_findings': hits, 'unlisted': len(unmatched), 'exhaustive': True}
